@@ -34,14 +34,20 @@ type armorEncoderStream struct {
 	encoder io.WriteCloser
 	nWords  int
 	params  armorParams
+	err     error
 }
 
 func (s *armorEncoderStream) Write(b []byte) (n int, err error) {
+	if s.err != nil {
+		return 0, s.err
+	}
 	n, err = s.encoder.Write(b)
 	if err != nil {
+		s.err = err
 		return n, err
 	}
 	if err := s.spaceAndOutputBuffer(); err != nil {
+		s.err = err
 		return n, err
 	}
 	return n, nil
@@ -66,14 +72,20 @@ func (s *armorEncoderStream) spaceAndOutputBuffer() error {
 }
 
 func (s *armorEncoderStream) Close() (err error) {
+	if s.err != nil {
+		return s.err
+	}
 	if err = s.encoder.Close(); err != nil {
+		s.err = err
 		return err
 	}
 	if err := s.spaceAndOutputBuffer(); err != nil {
+		s.err = err
 		return err
 	}
 	lst := s.buf.Bytes()
 	if _, err := s.encoded.Write(lst); err != nil {
+		s.err = err
 		return err
 	}
 	s.nWords++
@@ -86,6 +98,7 @@ func (s *armorEncoderStream) Close() (err error) {
 		}
 	}
 	if _, err := fmt.Fprintf(s.encoded, "%s%c %s%c\n", pad, s.params.Punctuation, s.footer, s.params.Punctuation); err != nil {
+		s.err = err
 		return err
 	}
 	return nil
